@@ -175,6 +175,13 @@ def run(prop, tier, seed, results, violations, undecided, infra):
             o['status'] = 'failed'
             undecided.remove(o)
             violations.append(o)
+    if prop == 'C16':
+        hits = scan_shared_state()
+        extra['shared_state_scan'] = {'rule': 'tokens static mut / thread_local / Cell / RefCell / Atomic* / Mutex / RwLock / Once* / Lazy / unsafe / raw pointers in the crates\' src; forbid(unsafe_code) present',
+                                      'hits': hits}
+        if hits and not any(v.get('counterexample') for v in violations):
+            infra.append('C16 side condition: constructs that can carry hidden shared state were found (%s); no harness '
+                         'exhibited interference, so the property is undecided for them' % ', '.join(hits[:5]))
     extra['stage_wall_s'] = round(time.time() - t0, 1)
     # ---- 5. known findings (committed file; never written at run time)
     kf_extra = known_findings_stage(prop, tier)
@@ -186,6 +193,42 @@ def run(prop, tier, seed, results, violations, undecided, infra):
             violations.remove(v)
             extra['known_findings'].append(kf)
     return extra
+
+
+def scan_shared_state():
+    """mechanical side condition of C16 (DESIGN 4, C16): contracts cannot see state that no signature
+    mentions, so the crate sources are scanned for constructs that can hold hidden shared state"""
+    import re
+    from .lexer import lex
+    bad = ('thread_local', 'Cell', 'RefCell', 'UnsafeCell', 'Mutex', 'RwLock', 'OnceCell', 'OnceLock', 'Lazy', 'LazyLock',
+           'unsafe')
+    hits = []
+    for crate in ('belt-ctr', 'cbc', 'cfb-mode', 'cfb8', 'ctr', 'cts', 'ige', 'ofb', 'pcbc'):
+        src = os.path.join(X.REPO, crate, 'src')
+        lib_forbids = False
+        for root, _, files in os.walk(src):
+            for f in files:
+                if not f.endswith('.rs'):
+                    continue
+                path = os.path.join(root, f)
+                text = open(path).read()
+                if f == 'lib.rs' and re.search(r'#!\[(forbid|deny)\(unsafe_code\)\]', text):
+                    lib_forbids = True
+                toks, _ = lex(text)
+                for i, t in enumerate(toks):
+                    rel = os.path.relpath(path, X.REPO)
+                    if t.kind == 'ident' and (t.text in bad or t.text.startswith('Atomic')):
+                        if t.text == 'unsafe' and toks[i - 1].text == '(' :
+                            continue
+                        hits.append('%s:%d:%s' % (rel, t.line, t.text))
+                    if t.kind == 'ident' and t.text == 'static' and toks[i - 1].kind != 'lifetime' and toks[i - 1].text != "'":
+                        # `&'static str` lexes as lifetime token; a `static` item/keyword is shared storage
+                        hits.append('%s:%d:static' % (rel, t.line))
+                    if t.kind == 'punct' and t.text == '*' and i + 1 < len(toks) and toks[i + 1].text in ('const', 'mut') and toks[i - 1].text in (':', '(', ',', '<', '->', '&', '='):
+                        hits.append('%s:%d:raw-pointer' % (rel, t.line))
+        if not lib_forbids:
+            hits.append('%s/src/lib.rs: no forbid/deny(unsafe_code)' % crate)
+    return hits
 
 
 # ------------------------------------------------------------------------------ known findings
